@@ -762,6 +762,25 @@ def _foreign_writes(modules, mdl=None):
             except Exception:
                 fam[cn] = {cn}
     in_family = lambda owner, names: owner is not None and any(owner in fam.get(n, {n}) for n in names)
+    modules = list(modules)
+    # a private module-level helper that is called ONLY from methods of the owner family is part of the owner (the cache handling
+    # of two classes factored into one function); one call from anywhere else makes it a foreign writer
+    callers = {}
+    for m in modules:
+        for cls_node, node in _walk_with_class(m.tree):
+            if isinstance(node, ast.Call) and isinstance(node.func, ast.Name):
+                callers.setdefault(node.func.id, []).append(cls_node.name if cls_node is not None else None)
+    top_funcs = {}
+    for m in modules:
+        for st in m.tree.body:
+            if isinstance(st, ast.FunctionDef):
+                for n_ in ast.walk(st):
+                    top_funcs[id(n_)] = st.name
+
+    def owner_helper(node, names):
+        fn = top_funcs.get(id(node))
+        cs = callers.get(fn) if fn else None
+        return bool(cs) and all(in_family(c, names) for c in cs)
     for m in modules:
         for cls_node, node in _walk_with_class(m.tree):
             attr = None
@@ -778,6 +797,8 @@ def _foreign_writes(modules, mdl=None):
                 continue
             name = attr.attr
             owner = cls_node.name if cls_node is not None else None
+            if owner is None and ((name in PATH_PRIVATE and owner_helper(node, ('Path',))) or (name in SEG_PRIVATE and owner_helper(node, SEG_PRIVATE[name]))):
+                continue
             if name in PATH_PRIVATE and not in_family(owner, ('Path',)):
                 hits.append((m.relpath, node.lineno, '%s written outside Path: %s' % (name, norm(node)[:60])))
             elif name in SEG_PRIVATE and not in_family(owner, SEG_PRIVATE[name]):
